@@ -108,11 +108,17 @@ def Sim.act {B : Block} (s : Sim B) : Char × Nat × Nat → Sim B
     match s.net.ins[j]? with
     | some ch => { s with net := { s.net with ins := s.net.ins.set j { ch with alive := false } } }
     | none => s
+  | ('P', k, _) => { s with net := { s.net with st := B.poke s.net.st k } }
   | ('X', j, _) =>
     match s.net.outs[j]? with
     | some ch => { s with net := { s.net with outs := s.net.outs.set j { ch with alive := false } } }
     | none => s
   | _ => s
+
+/-- cut the data into packets of the given lengths (the last ones may come out short or empty) -/
+def splitPkts (data : List Nat) : List Nat → List (List Nat)
+  | [] => []
+  | l :: rest => data.take l :: splitPkts (data.drop l) rest
 
 def triples : List Nat → List (Nat × Nat × Nat)
   | a :: b :: c :: rest => (a, b, c) :: triples rest
@@ -127,6 +133,11 @@ def runBlock (B : Block) (sections : List (List String)) : String :=
     -- literal input data
     | "L" :: rest => (nats rest).bind fun
       | cap :: data => some (cap, data)
+      | _ => none
+    -- packet input: `P cap len seed mod npk l1 … l_npk [tbl…]`, one value per packet
+    | "P" :: rest => (nats rest).bind fun
+      | cap :: len :: seed :: m :: npk :: more =>
+        some (cap, (splitPkts (genData len seed m (more.drop npk)) (more.take npk)).map encodePkt)
       | _ => none
     | _ => none
   let outs := sections.filterMap fun s =>
@@ -182,6 +193,7 @@ def sourceRegistry (name : String) (p : List Nat) : Option Block :=
     -- a file of `len` bytes (byte i = generated value mod 256) read as `size`-byte little-endian samples
     some (Src.fsBlock (genData len seed 256 []) size (if rep == 2 ^ 32 then Src.Repeat.infinite else Src.Repeat.finite rep))
   | "audec", [bitrate] => some (Au.decBlock bitrate Au.deqF32)
+  | "auenc", [bitrate] => some (Au.encBlock bitrate Au.qF32)
   | "sgsrc", [rep, len, seed, size] =>
     some (Src.sgBlock (Src.tameBytes (genData len seed 256 [])) size (if rep == 2 ^ 32 then Src.Repeat.infinite else Src.Repeat.finite rep))
   | _, _ => none
